@@ -712,6 +712,15 @@ def run_corpus(chk, ask):
         chk.case('mapping-corpus-' + name, {'lines': ls, 'req': 'mapping read <toy library + EMP> <lines>'}, im, mo, errs, True)
 
 
+def count_kind_headers(lines):
+    n = 0
+    for t in lines:
+        t = t.split(';')[0].strip()
+        if t.startswith('[') and t.strip('[ ]').casefold() in ('block', 'modification'):
+            n += 1
+    return n
+
+
 def run_generated(chk, ask, ffs):
     rng = chk.rng('mapping')
     n = 3000 if chk.thorough else 300
@@ -772,6 +781,9 @@ def run_generated(chk, ask, ffs):
         elif mode == 'fault':
             if emitted is not None:
                 errs.append('fault %s: the reader did not raise' % fault)
+        if emitted is not None and len(emitted) != count_kind_headers(lines):
+            # whatever else the file contains: one mapping per [ block ] / [ modification ] header
+            errs.append('%d block/modification headers, %d mappings loaded' % (count_kind_headers(lines), len(emitted)))
         chk.count('mapfile_' + mode)
         if fault:
             chk.count('mapfile_fault_' + fault)
@@ -810,8 +822,7 @@ def run_shipped(chk, ask):
         if emitted is None:
             errs.append('shipped mapping file %s rejected (%s)' % (rel, exc))
         else:
-            ndecl = sum(1 for t in ls if t.split(';')[0].strip().strip('[ ]').casefold() in ('block', 'modification')
-                        and t.split(';')[0].strip().startswith('['))
+            ndecl = count_kind_headers(ls)
             if len(emitted) != ndecl:
                 errs.append('%s: %d sections declared, %d mappings loaded' % (rel, ndecl, len(emitted)))
             chk.count('mapfile_shipped_mappings', len(emitted))
